@@ -275,7 +275,7 @@ func TestC17(t *testing.T) {
 		c.set("builtWithMaps", withMaps)
 		custom := map[uintptr]bool{} // objects a holder registered entries of its own on
 		held := map[uintptr]interface{}{}
-		idle := map[uintptr]bool{} // returned and not handed out again: may sit in the pool
+		idle := map[uintptr]bool{}        // returned and not handed out again: may sit in the pool
 		seen := map[uintptr]interface{}{} // keeps every object alive: an address is never reused
 		var hist []string
 		var order []uintptr
@@ -408,7 +408,9 @@ func TestC17(t *testing.T) {
 		if getOnEmpty {
 			r.Label("get-on-empty")
 		}
-		r.Sample(func() interface{} { return map[string]interface{}{"pool": kind, "size": size, "built_with_maps": withMaps, "history": strings.Join(hist, " ")} })
+		r.Sample(func() interface{} {
+			return map[string]interface{}{"pool": kind, "size": size, "built_with_maps": withMaps, "history": strings.Join(hist, " ")}
+		})
 	})
 	if t.Failed() {
 		return
